@@ -256,15 +256,21 @@ def returnFail (c : Ctx) (o : Obs) : Option String :=
       else some "c13-to-prev-node"
     else none
 
+/-- A submission creates a new bundle (it is owed a sequence number of its own): what was remembered
+about earlier transmissions under this tag does not concern it. -/
+def okSentBefore (s : SpecSt) : Event → List (Nat × Eid)
+  | .submit b => s.okSent.filter (fun te => te.1 != b.tag)
+  | _ => s.okSent
+
 /-- `NoDup`: not again to a peer that already got the bundle successfully while the node holds it. -/
 def dupFail (c : Ctx) (s : SpecSt) (o : Obs) : Option String :=
   (chosen c o.outs).findSome? fun pbk =>
-    if s.okSent.contains (pbk.2.1.tag, pbk.1.eid) then some "c13-sent-twice" else none
+    if (okSentBefore s o.ev).contains (pbk.2.1.tag, pbk.1.eid) then some "c13-sent-twice" else none
 
 /-- The remembered successes after the event: forgotten when the bundle left the store. -/
 def okSentAfter (c : Ctx) (s : SpecSt) (o : Obs) : List (Nat × Eid) :=
   let add := (chosen c o.outs).filterMap fun pbk => if pbk.2.2 then some (pbk.2.1.tag, pbk.1.eid) else none
-  (s.okSent ++ add).filter fun te =>
+  (okSentBefore s o.ev ++ add).filter fun te =>
     match c.bundle te.1 with
     | some b => (o.view.get b.key).isSome
     | none => false
